@@ -268,6 +268,9 @@ def run(rep, facts, tier):
         na_ = r_asciicopy.run(rep, f, c)
         rep.floor('R-ASCIICOPY', 'ASCII fast-path helpers of the handles', na_, 9, c)
         r_state.pairing(rep, f, c, 'R-STATE')
+        import p_c10
+        nr = sum(p_c10.replay_retire(rep, f, c, sink) for sink in ('utf8', 'utf16'))
+        rep.floor('R-PROGRESS.replay-retire', 'returning paths of the BOM replay helpers', nr, 8, c)
         for w in p_c09.WRAPPERS:
             if w[4]:
                 p_c09.wrapper(rep, f, c, *w)
